@@ -1,7 +1,13 @@
 #!/bin/sh
-# runs every claimed check (quick) on /repo and prints one line each
+# runs every claimed check (quick by default) on /repo; prints the verdict lines and the real exit status of each check
 cd "$(dirname "$0")"
+rc=0
 for p in $(python3 -c "import json; print(' '.join(c['property_id'] for c in json.load(open('MANIFEST.json'))['checks']))"); do
-  ./check $p "$@" 2>/dev/null | grep -E "^(VIOLATION|UNDECIDED|CHECKER-ERROR|C[0-9]+:)" | cut -c1-260
-  echo "   exit=$?"
+  out=$(./check $p "$@" 2>/dev/null); st=$?
+  echo "$out" | grep -E "^(VIOLATION|UNDECIDED|DEGRADED-TO-BOUNDED|CHECKER-ERROR|LEDGER|C[0-9]+:)" | cut -c1-260
+  echo "   exit=$st"
+  [ $st -ne 0 ] && rc=1
+  echo "$out" | grep -q "^DEGRADED-TO-BOUNDED" && rc=1
 done
+echo "runall: $( [ $rc -eq 0 ] && echo 'all checks exit 0, nothing degraded' || echo 'ATTENTION: a check failed or degraded' )"
+exit $rc
